@@ -108,6 +108,8 @@ pub fn run(prop: &str, tier: Tier, seed: i64, replay: Option<&str>) -> i32 {
             history_stage(&mut ck);
             // checksums written by the finishing hook of a user-supplied type
             shapes_stage(&mut ck);
+            // "a PURL parsed or BUILT with a checksum qualifier": the builder histories with M12 on every state
+            builder_stages(&mut ck, false);
             ck.lens_stage(plans_for(prop, tier));
             ck.ladder_stage();
             let (a, r) = crate::engine_b::spelling_stage(prop, monitors_for(prop), tier);
